@@ -77,10 +77,13 @@ def drive_nat(args):
     a = AG.gen_ag(rng, n_nts=(1, 3), max_rules=2, max_nodes=3, max_edges=3, recursion='none', weights='small', p_zero=0.15,
                   dom_sizes=(1, 2), start_arity=(0, 0, 1, 1), value_cap=1500, p_norules=0.1, allow_unused_terms=(i % 5 == 0))
     n = AG.numel(AG.shape_of(a, a['start']))
-    cot = [rng.choice([0, 1, 1, 2]) for _ in range(n)]
+    if i % 4 == 3:
+        a = AG.add_reversed_twin(rng, a, value_cap=1500)
+    # cotangents are signed (a loss such as -Z or -log Z): every third grammar gets negative entries
+    cot = [rng.choice([0, 1, 1, 2] if i % 3 else [0, 1, -1, -2, 2]) for _ in range(n)]
     cotlog = [0] * n
     if n:
-        cotlog[rng.randrange(n)] = rng.choice([1, 2])
+        cotlog[rng.randrange(n)] = rng.choice([1, 2] if i % 3 else [1, -1, -2])
     runs = []
     for kind in ('real', 'log'):
         for m in (METHODS if tier == 'thorough' else [METHODS[i % 3], 'fixed-point']):
@@ -97,7 +100,8 @@ def drive_fx(args):
     dead = i % 3 == 1
     a = AG.gen_fx_recursive(rng, linear=linear and not dead, max_q=0.8, dead=dead, scalar_start=dead or i % 3 == 2, patterned=(i % 4 == 2))
     n = AG.numel(AG.shape_of(a, a['start']))
-    cot = [rng.choice([1, 1, 2, 0]) for _ in range(n)] if n > 1 else [1]
+    # signed cotangents: with a recursive component the solution of the transposed system lies BELOW a negative cotangent
+    cot = [rng.choice([1, 1, 2, 0] if i % 2 else [1, -1, -2, 0, 2]) for _ in range(n)] if n > 1 else [rng.choice([1] if i % 2 else [-1, -2, 2])]
     runs = []
     for m in (METHODS if (linear and not dead) else METHODS[:2]):
         runs.append(one(a, 'real', m, torch.float64, cot, fx=True, tol=1e-8))
